@@ -104,13 +104,13 @@ type zzNode struct {
 
 // zzSpec is the evaluation context of one reference run.
 type zzSpec struct {
-	root       interface{}
-	calls      []zzCall // user-function call log (outside filters)
-	fcalls     []zzCall // calls made while evaluating filter operands
-	fnFailed   bool     // some user function returned an error
-	failedFns  []string
-	inFilter   int
-	multi      bool // the path so far contains a multi-valued step since the last aggregate
+	root      interface{}
+	calls     []zzCall // user-function call log (outside filters)
+	fcalls    []zzCall // calls made while evaluating filter operands
+	fnFailed  bool     // some user function returned an error
+	failedFns []string
+	inFilter  int
+	multi     bool // the path so far contains a multi-valued step since the last aggregate
 }
 
 func zzIsContainer(v interface{}) bool {
